@@ -3,6 +3,7 @@ package moq
 import (
 	"bytes"
 	"errors"
+	"fmt"
 	"go/token"
 	"go/types"
 	"io"
@@ -75,6 +76,10 @@ func (m *Mocker) Mock(w io.Writer, namePairs ...string) error {
 			methods[j] = m.methodData(iface.Method(j), typeParamVars)
 		}
 
+		if err := checkMemberNames(mockName, methods, m.cfg.WithResets); err != nil {
+			return err
+		}
+
 		mocks[i] = template.MockData{
 			InterfaceName: name,
 			MockName:      mockName,
@@ -120,6 +125,40 @@ func (m *Mocker) Mock(w io.Writer, namePairs ...string) error {
 
 	if _, err := w.Write(formatted); err != nil {
 		return err
+	}
+	return nil
+}
+
+// checkMemberNames reports the first name the mock type would declare
+// twice. The methods of the interface share one namespace with the
+// generated function fields, locks, call accessors and reset methods, so
+// an interface with the methods Get and GetCalls (or, with resets, a
+// method Reset) can not be mocked by a type which compiles.
+func checkMemberNames(mockName string, methods []template.MethodData, withResets bool) error {
+	type member struct{ name, what string }
+
+	members := []member{{"calls", "the call records"}}
+	if withResets {
+		members = append(members, member{"ResetCalls", "the method resetting all calls"})
+	}
+	for _, m := range methods {
+		members = append(members,
+			member{m.Name, "method " + m.Name},
+			member{m.Name + "Func", "the function field of " + m.Name},
+			member{m.Name + "Calls", "the call accessor of " + m.Name},
+			member{"lock" + m.Name, "the lock of " + m.Name},
+		)
+		if withResets {
+			members = append(members, member{"Reset" + m.Name + "Calls", "the reset method of " + m.Name})
+		}
+	}
+
+	seen := make(map[string]string, len(members))
+	for _, mb := range members {
+		if prev, ok := seen[mb.name]; ok {
+			return fmt.Errorf("cannot generate %s: %s and %s would both be named %s", mockName, prev, mb.what, mb.name)
+		}
+		seen[mb.name] = mb.what
 	}
 	return nil
 }
